@@ -7,7 +7,8 @@ void vs_region(const void *base, size_t sz, const char *name);
 /* create a scenario thread; it runs up to its first hook and parks there */
 void vs_spawn(void (*fn)(int));
 /* run the schedule: digit = Step t, 'a'+t = Flush t, 'A'+t = spurious futex return for t,
-   '!' followed by digit = EINTR for t, '^'+digit = deliver the registered signal handler on t.
+   '!' followed by digit = EINTR for t, '^'+digit = deliver the registered signal handler on t,
+   '>'+digit = run t until it completes its current operation (next ret event) or blocks.
    After the string ends, remaining threads are completed round-robin (flush first). */
 void vs_run(const char *sched);
 void vs_call(const char *op, unsigned long a);
@@ -20,6 +21,8 @@ void vs_unretire(const void *p);
 /* no preemption / no events between begin and end (sub-component treated as atomic) */
 void vs_atomic_begin(void);
 void vs_atomic_end(void);
+void vs_quiet_begin(void);
+void vs_quiet_end(void);
 /* a handler to run on thread t at a '^t' choice */
 void vs_set_signal_handler(void (*fn)(int));
 extern int vs_tso;        /* 1: simulate store buffers (default), 0: SC */
